@@ -215,6 +215,42 @@ def run(ctx, idx):
             ctx.ob("C18.d", "%s.execute::file-mask-kept" % d.key, d.module.rel, fi.node.lineno, keeps,
                    "the variable's own missing cells stay missing (union with the missing-value mask)" if keeps else
                    "the mask assigned to the returned array replaces the mask the file delivers: cells the variable marks missing (_FillValue) are returned as ordinary numbers whenever MissingValue is given")
+    # ---- f: shapes
+    ctx.rule("C18.f", "A grid keeps its shape through the file: the reader returns the variable's own array (no squeeze, reshape, transposition or flattening between the file and the result) and the writer stores the results as they are.")
+    for d_, r_, role in ((rd[0], rd[1], "read"), (wr[0], wr[1], "write")):
+        pos = [f_ for f_ in r_.findings if f_[0] in ("equivariance", "shape")]
+        con_ = "%s.execute::shape-kept" % d_.key
+        shapes = sorted({v.shape for s_, v, fk in r_.returns if isinstance(v, Arr)}) if role == "read" else []
+        if pos:
+            ctx.violate("C18.f", con_, d_.module.rel, pos[0][1], "%s: a grid with an axis of length 1 (or of another rank) does not come back from the file with the shape it was written with" % pos[0][2])
+        elif role == "read" and shapes != ["same"]:
+            ctx.violate("C18.f", con_, d_.module.rel, d_.execute.node.lineno, "the returned array has abstract shape %s, not the file variable's own" % "/".join(shapes or ["none"]))
+        else:
+            ctx.hold("C18.f", con_, d_.module.rel, d_.execute.node.lineno, "no shape-changing operation on the %s path" % role)
+    # ---- g: the file format can hold every element type the reader hands out
+    ctx.rule("C18.g", "The output file's data model holds every element type a result can have: the reader's type table delivers 64-bit and unsigned integers (int, numpy.uint), which only the NETCDF4 (and CDF-5) models store; the writer therefore creates the dataset with the default format or one of those.")
+    ctx.assume("netCDF4 library: Dataset(filename, mode, clobber, format='NETCDF4', ...); NETCDF4_CLASSIC and the NETCDF3 formats other than NETCDF3_64BIT_DATA have no 64-bit or unsigned integer types")
+    dcalls = [n for n in own_nodes(wr[0].execute.node) if isinstance(n, ast.Call) and (idx.qualname(wr[0].execute.module, n.func, wr[0].execute) or K.src(n.func)).split(".")[-1] == "Dataset"]
+    wcalls = []
+    for c_ in dcalls:
+        mode = c_.args[1] if len(c_.args) > 1 else next((k.value for k in c_.keywords if k.arg == "mode"), None)
+        if isinstance(mode, ast.Constant) and isinstance(mode.value, str) and mode.value[:1] in ("w", "x"):
+            wcalls.append(c_)
+    if not wcalls:
+        raise AnalysisError("C18.g: the Dataset(..., 'w') call of the NetCDF writer was not found")
+    for c_ in wcalls:
+        fmt = c_.args[3] if len(c_.args) > 3 else next((k.value for k in c_.keywords if k.arg == "format"), None)
+        con_ = "%s.execute::file-format" % wr[0].key
+        if fmt is None:
+            ctx.hold("C18.g", con_, wr[0].module.rel, c_.lineno, "default format (NETCDF4)")
+            continue
+        try:
+            fv_ = idx.const(wr[0].execute.module, fmt, wr[0].execute)
+        except Exception:
+            raise AnalysisError("C18.g: the dataset format `%s` is not a constant" % K.src(fmt))
+        okf = fv_ in ("NETCDF4", "NETCDF3_64BIT_DATA")
+        ctx.ob("C18.g", con_, wr[0].module.rel, c_.lineno, okf, "format %s stores every integer width" % fv_ if okf else
+               "the dataset is created as %s, a data model without 64-bit and unsigned integers: a result read with DataType Integer (int64) or Positive Integer (uint64) cannot be written back (createVariable fails), although it was read from a file of the same kind" % fv_)
     # ---- d (write)
     d, r = wr
     fi = d.execute
